@@ -385,6 +385,15 @@ def gen_race_history(w, rng, tier, regime=None, restarts=True, ties=True, p_rewr
             if e is not None:
                 w.events[e]["adv"] = True
                 new.append(e)
+                # … and now and then a SECOND forged commit in the same epoch (by the same or another non-admin) with another
+                # timestamp: refused commits on both sides of the honest ones — a refused commit must leave nothing behind that a
+                # later comparison could pick up
+                if rng.random() < 0.5:
+                    a2 = rng.choice(nonadmins); v2 = rng.choice([c for c in alive if c != a2])
+                    e2 = w.publish(f"advremove {a2} {v2} {base + rng.choice([-8, -3, 4, 6, 9])}", "commit", a2)
+                    if e2 is not None:
+                        w.events[e2]["adv"] = True
+                        new.append(e2)
         # a member sends a stand-alone MLS Update PROPOSAL built with the MLS library (mdk ignores those)
         if rng.random() < p_upd:
             a = rng.choice(alive)
@@ -668,6 +677,15 @@ def oracle_world(w):
                     if before["epoch"] > f["epoch"]:
                         sig = "rollback-before-authorisation" if (r0.startswith("err:CommitFromNonAdmin") or ev.get("adv")) else "refused-after-rollback"
                         n_ev = int(t[2])
+                        if sig == "rollback-before-authorisation":
+                            # the listed mechanism needs the forged commit to be MIP-03-BETTER than the sibling this client had applied
+                            # for that epoch (that comparison is what happens before the authorisation); a rollback for a forged commit
+                            # that is NOT better than the applied one is something else
+                            applied = [n2 for n2, (st2, _e2) in before["recs"].items()
+                                       if st2 == "k" and n2 in w.events and w.events[n2].get("parent_epoch") == f["epoch"] and n2 != n_ev]
+                            mine = (ev.get("ts"), ev.get("idnum"))
+                            if applied and None not in mine and all(mine > (w.events[n2]["ts"], w.events[n2]["idnum"]) for n2 in applied):
+                                sig = "rollback-for-a-worse-refused-commit"
                         if r0 == "err:GroupNotFound" and ev.get("retag"):
                             # a sibling commit re-published under the receiver's NEW id: found, judged better, rolled back — and
                             # not found under the id the rollback restored
